@@ -81,6 +81,7 @@ func runText(s *Session) string {
 	sent := js
 	how := ""
 	kind := ""
+	var control []byte // the same text with the identifier altered in place (same length)
 	if t.Chance(1, 2) {
 		type cand struct {
 			kind     string
@@ -119,7 +120,9 @@ func runText(s *Session) string {
 				kind = "unlock key" // inside unlock conditions: algorithm and key length are free
 			}
 			sent = append(append(append([]byte(nil), js[:c.from]...), mut...), js[c.to:]...)
-			how = fmt.Sprintf("%s %s: %s (%s -> %s)", kind, "identifier", how, tok, mut)
+			control = append([]byte(nil), js...)
+			control[c.to-1] = "0123456789abcdef"[(bytes.IndexByte([]byte("0123456789abcdef"), js[c.to-1])+1)%16]
+			how = fmt.Sprintf("%s %s after %s: %s (%s -> %s)", kind, "identifier", js[max(0, c.from-24):c.from], how, tok, mut)
 		}
 	}
 	if how == "" && t.Chance(1, 4) {
@@ -182,9 +185,19 @@ func runText(s *Session) string {
 			return
 		}
 		fixedLength := kind != "unlock key" && kind != "protocol version"
-		if err == nil && !bytes.Equal(back, js) && (kind == "address" || (fixedLength && len(sent) != len(js))) {
-			// a checksummed address with any character altered, or any identifier
-			// of the wrong length, was taken for another value
+		switch {
+		case err != nil:
+		case fixedLength && len(sent) != len(js) && bytes.Equal(back, js) && informational(k.mk(), control, js):
+			// the member is printed for the reader's benefit and ignored by the
+			// parser (a derived ID inside a transaction): not an identifier parse
+			e.inc("text.informational-member")
+		case fixedLength && len(sent) != len(js):
+			// an identifier of the wrong length names no value at all; taking it
+			// for one (even for the value it was cut from or grown out of) is silent
+			// acceptance of text the type itself would never print
+			e.violate("C20", "corrupted-identifier-accepted", fmt.Sprintf("%s: %s was parsed without error (as %.80s...)", k.name, how, back))
+		case kind == "address" && !bytes.Equal(back, js):
+			// a checksummed address with any character altered was taken for another value
 			e.violate("C20", "corrupted-identifier-accepted", fmt.Sprintf("%s: %s was parsed without error into a different value", k.name, how))
 		}
 	}
@@ -192,6 +205,18 @@ func runText(s *Session) string {
 	go server(s.eb, s.b)
 	s.run(20000)
 	return "text"
+}
+
+// informational reports whether text with one identifier altered in place
+// still parses to the value that prints as js: the member is not part of the value.
+func informational(into any, control, js []byte) (same bool) {
+	guardPanic(func() {
+		if json.Unmarshal(control, into) == nil {
+			back, err := json.Marshal(into)
+			same = err == nil && bytes.Equal(back, js)
+		}
+	})
+	return
 }
 
 var tTimeT = reflect.TypeOf(time.Time{})
